@@ -880,6 +880,8 @@ def run(ctx):
     import extra_oracles
     from e3nn import nn as _nn, o3 as _o3
     extra_oracles.c09_activation_history(ctx, _nn, _o3)
+    import extra_oracles as _xo
+    _xo.module_instance_independence(ctx, "C09")
     ctx.notes["rule"] = (
         "seeded random layouts (mul 0..3, l 0..3, both parities, empty / repeated / unsorted irreps) x activation "
         "functions of each parity class x adversarial fibres (per copy: zero, |x| = eps(1 +- 1e-3), x1e150, x1e-150, "
